@@ -117,7 +117,7 @@ theorem trunc_runE {cap mc : Nat} {Wk Z W0 L0 : Bytes} (K : TCtx cap mc Wk Z W0)
     obtain ⟨hsame, hph, hsc, hstop, hmx, hsg, hwk⟩ := prePoll_same c n hsegs
     have hst0 := hst.cong hph hstop hsame
     obtain ⟨c', r, hh, hfr, ho⟩ := trunc_pollE K hst0 (hsame.em.trans hem)
-    have hpoll := hh.poll (F := 100000) (by rw [hsame.input]; exact hlen)
+    have hpoll := hh.pollT (by rw [hsame.input]; exact hlen)
     have hans0 : ans (prePoll c n none).env.tr = ans c.env.tr := by unfold ans; rw [hsame.rd, hsame.wr]
     rw [runTask_succ, hpoll]
     rcases ho with ⟨rfl, _, _, ha⟩ | ⟨rfl, h1, h2, h3⟩
@@ -130,7 +130,7 @@ theorem trunc_runE {cap mc : Nat} {Wk Z W0 L0 : Bytes} (K : TCtx cap mc Wk Z W0)
     obtain ⟨hsame, hph, hsc, hstop, hmx, hsg, hwk⟩ := prePoll_same c n hsegs
     have hst0 := hst.cong hph hstop hsame
     obtain ⟨c', r, hh, hfr, ho⟩ := trunc_pollE K hst0 (hsame.em.trans hem)
-    have hpoll := hh.poll (F := 100000) (by rw [hsame.input]; exact hlen)
+    have hpoll := hh.pollT (by rw [hsame.input]; exact hlen)
     have hans0 : ans (prePoll c n none).env.tr = ans c.env.tr := by unfold ans; rw [hsame.rd, hsame.wr]
     rw [runTask_succ, hpoll]
     rcases ho with ⟨rfl, ⟨F', hst'⟩, hw, ha⟩ | ⟨rfl, h1, h2, h3⟩
@@ -176,7 +176,7 @@ theorem trunc_run_startE {cap mc : Nat} {Wk Z W0 : Bytes} (K : TCtx cap mc Wk Z 
       hstop1, BenE.same hsame hb, hremle, Or.inr ⟨_, rfl, by show c0.env.tr.wlog ++ _ = _; rw [hsame.wlog]⟩⟩
   obtain ⟨c', r, hh, hfr, ho⟩ := trunc_pollE K hst (hsame.em.trans hem)
   have hh' := Halts.of_steps (Steps.one hstep') hh
-  have hpoll := hh'.poll (F := 100000) (by
+  have hpoll := hh'.pollT (by
     show 1 + (2 * c0.env.tr.input.length + 4) ≤ 100000
     rw [hsame.input]; omega)
   have hans0 : ans c0.env.tr = ans c.env.tr := by unfold ans; rw [hsame.rd, hsame.wr]
@@ -685,7 +685,7 @@ theorem mid_runE {g : MCfg} (ok : g.OK) : ∀ (A : Nat) (c : Conn) (n fuel : Nat
     obtain ⟨hsame, hph, hsc, hstop, hmx, hsg, hwk⟩ := prePoll_same c n hsegs
     have hst0 := hst.cong hph hsc hstop hmx hsame
     obtain ⟨c', r, hh, hl, ho⟩ := mstage_pollE ok hst0 (hsame.em.trans hem)
-    have hpoll := hh.poll (F := 100000) (by rw [hsame.input]; exact hlen)
+    have hpoll := hh.pollT (by rw [hsame.input]; exact hlen)
     have hans0 : ans (prePoll c n none).env.tr = ans c.env.tr := by unfold ans; rw [hsame.rd, hsame.wr]
     rw [runTask_succ, hpoll]
     rcases ho with ⟨rfl, _, _, ha⟩ | ⟨rfl, hfin⟩
@@ -697,7 +697,7 @@ theorem mid_runE {g : MCfg} (ok : g.OK) : ∀ (A : Nat) (c : Conn) (n fuel : Nat
     obtain ⟨hsame, hph, hsc, hstop, hmx, hsg, hwk⟩ := prePoll_same c n hsegs
     have hst0 := hst.cong hph hsc hstop hmx hsame
     obtain ⟨c', r, hh, hl, ho⟩ := mstage_pollE ok hst0 (hsame.em.trans hem)
-    have hpoll := hh.poll (F := 100000) (by rw [hsame.input]; exact hlen)
+    have hpoll := hh.pollT (by rw [hsame.input]; exact hlen)
     have hans0 : ans (prePoll c n none).env.tr = ans c.env.tr := by unfold ans; rw [hsame.rd, hsame.wr]
     rw [runTask_succ, hpoll]
     rcases ho with ⟨rfl, hst', hw, ha⟩ | ⟨rfl, hfin⟩
@@ -741,7 +741,7 @@ theorem mid_run_startE {g : MCfg} (ok : g.OK) {c : Conn} {n fuel : Nat}
       hstop1, BenE.same hsame hb, hremle, Or.inr ⟨_, rfl, by show c0.env.tr.wlog ++ _ = _; rw [hsame.wlog, hlog]⟩⟩
   have hres := mparse_pollE ok hst (hsame.em.trans hem) (hsc0.trans hsc) (hmx.trans hm) (hsame.hs.trans hev)
   obtain ⟨c', r, hh, hl, ho⟩ := MResE.of_steps (Steps.one hstep') (mkC_link c0 _ (.refl _)) hres
-  have hpoll := hh.poll (F := 100000) (by
+  have hpoll := hh.pollT (by
     show 1 + (2 * c0.env.tr.input.length + 6) ≤ 100000
     rw [hsame.input]; omega)
   have hans0 : ans c0.env.tr = ans c.env.tr := by unfold ans; rw [hsame.rd, hsame.wr]
